@@ -86,6 +86,37 @@ thread_local! {
     static RT: RefCell<Rt> = RefCell::new(Rt::new());
     /// Set by the engine while a world clone is in flight: called from inside Clone::clone.
     static CLONE_PROBE: RefCell<Option<Box<dyn FnMut(u8, u32)>>> = const { RefCell::new(None) };
+    /// Worlds cloned from inside an in-flight runtime-borrowed access, with the model at that instant
+    /// and the Clone log of that clone; adopted as replicas by the engine when the operation ends.
+    static FORKS: RefCell<Vec<(Box<dyn std::any::Any>, Box<dyn std::any::Any>, Vec<(u8, u32, u32)>)>> = const { RefCell::new(Vec::new()) };
+}
+
+pub fn stash_fork(w: Box<dyn std::any::Any>, m: Box<dyn std::any::Any>, log: Vec<(u8, u32, u32)>) {
+    FORKS.with(|f| f.borrow_mut().push((w, m, log)));
+}
+
+pub fn forks_stashed() -> usize {
+    FORKS.with(|f| f.borrow().len())
+}
+
+pub fn take_forks() -> Vec<(Box<dyn std::any::Any>, Box<dyn std::any::Any>, Vec<(u8, u32, u32)>)> {
+    FORKS.with(|f| std::mem::take(&mut *f.borrow_mut()))
+}
+
+/// Records Clone callbacks for the duration of one nested clone, whatever the armed state is.
+pub fn log_scope_begin() -> (bool, usize) {
+    with(|r| {
+        let prev = r.record_logs;
+        r.record_logs = true;
+        (prev, r.clone_log.len())
+    })
+}
+
+pub fn log_scope_end(tok: (bool, usize)) -> Vec<(u8, u32, u32)> {
+    with(|r| {
+        r.record_logs = tok.0;
+        r.clone_log.split_off(tok.1.min(r.clone_log.len()))
+    })
 }
 
 #[inline]
@@ -94,6 +125,7 @@ pub fn with<R>(f: impl FnOnce(&mut Rt) -> R) -> R {
 }
 
 pub fn reset(trace: bool) {
+    drop(take_forks());
     with(|r| {
         *r = Rt::new();
         if trace {
@@ -101,6 +133,8 @@ pub fn reset(trace: bool) {
         }
     });
     CLONE_PROBE.with(|p| *p.borrow_mut() = None);
+    // worlds left over from an aborted run are dropped while the registry is already reset: forget
+    // nothing, but do it before the reset so their destructors meet the registry they belong to
 }
 
 pub fn set_clone_probe(p: Option<Box<dyn FnMut(u8, u32)>>) {
